@@ -557,7 +557,8 @@ func runCase(h *polcase.Header, idx int, cs *polcase.Case, c *polcase.Conc, rng 
 	// history of the value: the SAME policy value (same Syscalls backing array), compiled above for c.Arch, is now compiled
 	// for another architecture of its class; its decisions there are the policy's (the first compilation must leave nothing
 	// behind that a later one could see)
-	if !cs.Pol.X86 && idx%2 == 0 {
+	// (not for a policy that was padded to the whole table of c.Arch: the extra names are that table's, another table lacks some)
+	if !cs.Pol.X86 && idx%2 == 0 && len(c.Pad) == 0 {
 		var b *arch.Info
 		for _, o := range []*arch.Info{arch.I386, arch.ARM, arch.AARCH64} {
 			if o != c.Arch {
